@@ -438,10 +438,123 @@ def rule_synthesised_closures(ck, facts):
     ck.floor(R, "synthesised_wrapper_sites", n, 2)
 
 
+def rule_wasm_release(ck, facts):
+    """the WASM side of ReleaseUserSum: generator arm -> import slot -> import name -> host function -> heap"""
+    from ..cfg import DefIndex, reachable
+    from ..facts import const_fn, const_str, place_fields
+
+    R = "C12.wasm-release"
+    ck.rule(R, "the WASM generator's arm for the MIR instruction that releases a boxed value (ReleaseUserSum) calls an import; the host function registered under that import's name reaches (<= 3 calls) a removal from / reference-count decrement on the runtime's heap storage. The chain arm -> import slot -> name -> host function is derived on every run. A host function that does nothing means no heap object allocated by box_alloc is ever freed on WASM")
+    lang = facts.crate(roles.LANG)
+    ti = [f for f in lang.fns if f.short.endswith("WasmGenerator::translate_instruction")]
+    ck.require(R, len(ti) == 1, "anchor|translate_instruction", "WasmGenerator::translate_instruction not found")
+    if len(ti) != 1:
+        return
+    f = ti[0]
+    cov = cover.coverage(facts, f, roles.MIR_INSTR)
+    tb = cov.arm_target("ReleaseUserSum") if cov else None
+    ck.require(R, tb is not None, "anchor|release-arm", "the WASM generator has no arm for ReleaseUserSum")
+    if tb is None:
+        return
+    region = reachable(f, tb, stop=[cov.primary.block])
+    slots = set()
+    for b in region:
+        for st in f.stmts(b):
+            if st[KIND] == "a":
+                for x in _places(st[5]):
+                    for fl in place_fields(x):
+                        if fl and "RuntimeFunctionIndices" in fl:
+                            slots.add(fl)
+    ck.require(R, len(slots) == 1, "anchor|release-import-slot", "the ReleaseUserSum arm does not call exactly one runtime import (found %s)" % sorted(slots))
+    if len(slots) != 1:
+        return
+    slot = slots.pop()
+    # import name stored into that slot
+
+    def _str_of(g, di, cur):
+        for _ in range(6):
+            r = di.resolve(cur) if cur[0] != "c" else ("const", cur)
+            if r[0] == "const":
+                return const_str(r[1])
+            if r[0] == "rv" and r[1][5][0] in ("ref", "raw"):
+                cur = ["cp", [r[1][5][1][0], []]]
+                continue
+            return None
+        return None
+
+    name = None
+    for g in lang.fns:
+        if "::compiler::wasmgen" not in g.path or g.kind == "promoted":
+            continue
+        di = None
+        for b, t in g.calls():
+            if (callee(t) or "").split("::")[-1] not in ("add_import", "add_import_from") or t[6] is None:
+                continue
+            stored = [x for x in place_fields(t[6]) if x]
+            if not stored:
+                for _, s2 in g.all_stmts():
+                    if s2[KIND] == "a" and s2[5][0] == "use" and s2[5][1][0] in ("cp", "mv") and s2[5][1][1][0] == t[6][0] and s2[4][1]:
+                        stored = [x for x in place_fields(s2[4]) if x]
+            if stored and stored[-1] == slot:
+                di = di or DefIndex(g)
+                for a in t[5][1:]:
+                    v = _str_of(g, di, a)
+                    if v and v not in ("runtime", "math"):
+                        name = v
+    ck.require(R, name is not None, "anchor|release-import-name", "the import name behind %s was not found" % slot.split("::")[-1])
+    if name is None:
+        return
+    host = None
+    for g in lang.fns:
+        if "::runtime::wasm" not in g.path or g.kind == "promoted":
+            continue
+        di = None
+        for b, t in g.calls():
+            if (callee(t) or "").split("::")[-1] != "func_wrap" or len(t[5]) < 4:
+                continue
+            di = di or DefIndex(g)
+            if _str_of(g, di, t[5][2]) == name:
+                host = facts.fn(const_fn(t[5][3]) or "")
+    ck.require(R, host is not None, "anchor|release-host", "no host function is registered under the import name `%s`" % name)
+    if host is None:
+        return
+    seen, frontier, frees = {host.path}, [host], []
+    for _ in range(3):
+        nxt = []
+        for g in frontier:
+            for _, t in g.calls():
+                c = callee(t) or ""
+                nm = c.split("::")[-1]
+                if nm in ("heap_release", "remove", "release", "dec_ref", "decrement") and ("heap" in c.lower() or "SlotMap" in c or "HeapStorage" in c):
+                    frees.append(c)
+                h = facts.fn(c)
+                if h is not None and h.crate == roles.LANG and h.path not in seen:
+                    seen.add(h.path)
+                    nxt.append(h)
+        frontier = nxt
+    key = "host|%s" % name
+    if frees:
+        ck.ok(R, key, {"import": name, "host": host.short, "frees_through": sorted(set(x.split("::")[-1] for x in frees))})
+    else:
+        ck.bad(R, key, "the WASM back end lowers ReleaseUserSum to a call of the import `%s`, and the host function behind it (%s) never touches the heap storage (the generator also passes placeholder arguments): every boxed value allocated on WASM lives for ever — `let l = Cons(now, Cons(2.0, Nil))` in dsp grows the host's heap by two objects per sample" % (name, host.short), host.where())
+
+
+def _places(x):
+    out = []
+    if isinstance(x, list):
+        if len(x) == 2 and isinstance(x[0], int) and isinstance(x[1], list):
+            out.append(x)
+        else:
+            for y in x:
+                out.extend(_places(y))
+    return out
+
+
 def run(ck, facts, tier):
     from ..callgraph import CallGraph
 
     rule_synthesised_closures(ck, facts)
+    rule_wasm_release(ck, facts)
 
     rule_pairing(ck, facts, None)
     rule_walker_recursion(ck, facts)
